@@ -1286,6 +1286,16 @@ func (km *KeystoreManager) DeleteKeystore(dbTransaction db.DBTransaction, accoun
 	}
 }
 
+// UnuseKeystore makes accountID stop being the keystore in use (no-op if another one, or
+// none, is in use).
+func (km *KeystoreManager) UnuseKeystore(accountID string) {
+	km.mu.Lock()
+	defer km.mu.Unlock()
+	if km.currentKeystore != nil && km.currentKeystore.accountName == accountID {
+		km.currentKeystore = nil
+	}
+}
+
 func (km *KeystoreManager) UseKeystoreForWallet(name string) error {
 	km.mu.Lock()
 	defer km.mu.Unlock()
